@@ -258,7 +258,9 @@ class Xfer(Harness):
                     return False
                 c = cmds[0]
                 if c == "purge-source-after-arrival":
-                    if published_at_B() == 0:
+                    # the controller drops a source only after the target announced the arrival and after every fetch it commanded
+                    # from that source has been answered (C04)
+                    if published_at_B() == 0 or len(fetch_payloads) < issued.count("fetch"):
                         return False
                     cmds.pop(0)
                     comms.callback(A.daddress, DatasetPurge(ds=D))
